@@ -932,9 +932,12 @@ def configs(ctx, prop):
         extra = [l for l in LAYOUTS if l not in layouts]
         layouts = layouts + [extra[ctx.seed % len(extra)]]
     items = []
-    for layout in layouts:
+    for n, layout in enumerate(layouts):
         for registered in (True, False):
-            items.append((prop, layout, registered, K, cap, ctx.tier))
+            # quick: the first (smallest) layout gets overtaking budget 2
+            k = K
+            items.append((prop, layout, registered, k,
+                          cap * 3 if k > K else cap, ctx.tier))
     return items
 
 
